@@ -156,6 +156,8 @@ class GMonthDay:
             raise ValueError("{} is out of the allowed range for day of month".format(day))
         if not 1 <= month <= 12:
             raise ValueError("{} is out of the allowed range for month".format(month))
+        if day > (29 if month == 2 else 30 if month in (4, 6, 9, 11) else 31):
+            raise ValueError("{} is out of the allowed range for day of month {}".format(day, month))
         self.month: int = month
         self.day: int = day
         self.tzinfo: Optional[datetime.tzinfo] = tzinfo
